@@ -5,8 +5,8 @@ import SuxModel.RankSel.Small.LemmasBuild
 
 After the loop over ALL backend words the inventory holds, for every `i` with `512 i < N`
 (`N` = number of ones below `len`), the position of the one of rank `512 i`, and nothing else; the
-pushed sentinel is `sentinelOf len`.  (The second phase — the subinventory — is not proved here; it is
-covered per instance by the certificate check `s9InvCheck`.)
+pushed sentinel is `sentinelOf len`.  (The second phase — the subinventory — is proved in
+`LemmasSub{Lanes,Counters,Scan,Frame}.lean`; the full builder theorem is `build_inv` in `LemmasSubFrame.lean`.)
 -/
 namespace Sux.RS.Select9
 open Sux Sux.RS Sux.RS.Priv Sux.RS.BW Sux.RS.Small
